@@ -129,6 +129,170 @@ def r3_grammar(ctx, m) -> None:
               "the pattern in the code differs from the one the module documentation quotes", pat, found=src)
 
 
+class _ArmGiveUp(Exception):
+    pass
+
+
+def indexed_arm_outcomes(stmts, acc: str, mvar: str, datav: str):
+    """abstract execution of the indexed arm of the replay loop (canonical statements): the register `acc[<group 1>]` is followed as
+    (exists?, length as a linear expression over L = its length before and n = int(<group 2>), fill character, writes).
+    Returns the list of final states, one per feasible path; raises _ArmGiveUp on a statement it cannot follow."""
+    from ..lin import Lin, constraint, infeasible, lin_of
+    G0, G1 = f"{mvar}.groups()[0]", f"{mvar}.groups()[1]"
+    n, L = Lin.sym("n"), Lin.sym("L")
+
+    class St:
+        def __init__(self, exists, length, cons, env, regs, writes, fills, created):
+            self.exists, self.length, self.cons, self.env, self.regs, self.writes, self.fills, self.created = exists, length, cons, env, regs, writes, fills, created
+
+        def copy(self):
+            return St(self.exists, self.length, list(self.cons), dict(self.env), set(self.regs), list(self.writes), list(self.fills), self.created)
+
+    def sub(e, st):
+        from ..norm import _Subst
+        import copy as _c
+        return _Subst({k: v for k, v in st.env.items() if isinstance(v, ast.AST)}).visit(_c.deepcopy(e))
+
+    def is_name(e, st):
+        return u(sub(e, st)) == G0
+
+    def is_reg(e, st):
+        t = u(e)
+        if t in st.regs:
+            return True
+        e2 = sub(e, st)
+        return isinstance(e2, ast.Subscript) and u(e2.value) == acc and u(e2.slice) == G0
+
+    def atom(st):
+        def f(e):
+            e2 = sub(e, st)
+            if u(e2) == f"int({G1})":
+                return n
+            if isinstance(e, ast.Name) and isinstance(st.env.get(e.id), Lin):
+                return st.env[e.id]
+            if isinstance(e2, ast.Call) and u(e2.func) == "len" and len(e2.args) == 1 and (is_reg(e.args[0] if isinstance(e, ast.Call) else e2.args[0], st) or is_reg(e2.args[0], st)):
+                if st.exists is not True:
+                    raise _ArmGiveUp("length of a register that may not exist")
+                return st.length
+            return None
+        return f
+
+    def zeros(e, st):
+        """['0'] * E  /  E * ['0']  /  ['0' for _ in range(E)]  -> E as Lin"""
+        if isinstance(e, ast.BinOp) and isinstance(e.op, ast.Mult):
+            for a, b in ((e.left, e.right), (e.right, e.left)):
+                if isinstance(a, ast.List) and len(a.elts) == 1 and isinstance(a.elts[0], ast.Constant) and a.elts[0].value == "0":
+                    return lin_of(b, atom(st))
+        if isinstance(e, ast.ListComp) and isinstance(e.elt, ast.Constant) and e.elt.value == "0" and len(e.generators) == 1 and not e.generators[0].ifs \
+                and isinstance(e.generators[0].iter, ast.Call) and u(e.generators[0].iter.func) == "range" and len(e.generators[0].iter.args) == 1:
+            return lin_of(e.generators[0].iter.args[0], atom(st))
+        if isinstance(e, ast.List) and all(isinstance(x, ast.Constant) and x.value == "0" for x in e.elts):
+            return Lin({}, len(e.elts))
+        return None
+
+    def run(stmts, st):
+        """-> list of final states"""
+        if not stmts:
+            return [st]
+        s, rest = stmts[0], stmts[1:]
+        if isinstance(s, (ast.Pass, ast.Continue)):
+            return [st] if isinstance(s, ast.Continue) else run(rest, st)
+        if isinstance(s, ast.If):
+            t = s.test
+            neg = False
+            while isinstance(t, ast.UnaryOp) and isinstance(t.op, ast.Not):
+                t, neg = t.operand, not neg
+            out = []
+            # membership of the register name in the accumulator
+            if isinstance(t, ast.Compare) and len(t.ops) == 1 and isinstance(t.ops[0], (ast.In, ast.NotIn)) and is_name(t.left, st) and u(t.comparators[0]) == acc:
+                present = isinstance(t.ops[0], ast.In) != neg
+                if st.exists is None:
+                    raise _ArmGiveUp("membership of an untracked register")
+                branch = s.body if st.exists == present else s.orelse
+                return run(list(branch) + rest, st)
+            for taken, branch in ((True, s.body), (False, s.orelse)):
+                c = constraint(t, taken != neg, atom(st))
+                if c is None:
+                    raise _ArmGiveUp(f"test `{u(s.test)}` is not a comparison of lengths and the index")
+                st2 = st.copy()
+                st2.cons += c
+                if infeasible(st2.cons):
+                    continue
+                out += run(list(branch) + rest, st2)
+            return out
+        if isinstance(s, ast.Assign) and len(s.targets) == 1:
+            tg, v = s.targets[0], s.value
+            # (name, index string) = match.groups()
+            if isinstance(tg, ast.Tuple) and len(tg.elts) == 2 and all(isinstance(x, ast.Name) for x in tg.elts) and u(sub(v, st)) == f"{mvar}.groups()":
+                st.env[tg.elts[0].id] = ast.parse(G0, mode="eval").body
+                st.env[tg.elts[1].id] = ast.parse(G1, mode="eval").body
+                return run(rest, st)
+            if isinstance(tg, ast.Name):
+                v2 = sub(v, st)
+                # alias of the register (a plain lookup needs it to exist; setdefault(name, []) creates it empty)
+                if isinstance(v2, ast.Subscript) and u(v2.value) == acc and u(v2.slice) == G0:
+                    if st.exists is not True:
+                        raise _ArmGiveUp("the register is read before it exists (KeyError)")
+                    st.regs.add(tg.id)
+                    return run(rest, st)
+                if isinstance(v2, ast.Call) and u(v2.func) == f"{acc}.setdefault" and len(v2.args) == 2 and u(v2.args[0]) == G0 \
+                        and isinstance(v2.args[1], ast.List) and not v2.args[1].elts:
+                    if st.exists is False:
+                        st.exists, st.length, st.created = True, Lin({}, 0), True
+                    st.regs.add(tg.id)
+                    return run(rest, st)
+                lv = lin_of(v, atom(st))
+                if lv is not None:
+                    st.env[tg.id] = lv
+                    return run(rest, st)
+                if u(v2) in (G0, G1, f"int({G1})"):
+                    st.env[tg.id] = v2
+                    return run(rest, st)
+                raise _ArmGiveUp(f"assignment `{u(s)}`")
+            if isinstance(tg, ast.Subscript):
+                # acc[name] = zeros  : (re)creation
+                if u(tg.value) == acc and is_name(tg.slice, st):
+                    z = zeros(v, st)
+                    if z is None:
+                        raise _ArmGiveUp(f"register assigned `{u(v)}`")
+                    st.exists, st.length, st.created = True, z, True
+                    st.fills.append("0")
+                    return run(rest, st)
+                # reg[i] = bit
+                if is_reg(tg.value, st):
+                    i = lin_of(tg.slice, atom(st))
+                    if i is None:
+                        raise _ArmGiveUp(f"write at `{u(tg.slice)}`")
+                    st.writes.append((i, u(sub(v, st)), st.length, list(st.cons)))
+                    return run(rest, st)
+            raise _ArmGiveUp(f"assignment `{u(s)}`")
+        grow = None
+        if isinstance(s, ast.AugAssign) and isinstance(s.op, ast.Add) and is_reg(s.target, st):
+            grow = s.value
+        if isinstance(s, ast.Expr) and isinstance(s.value, ast.Call) and isinstance(s.value.func, ast.Attribute) and s.value.func.attr == "extend" \
+                and len(s.value.args) == 1 and is_reg(s.value.func.value, st):
+            grow = s.value.args[0]
+        if grow is not None:
+            if st.exists is not True:
+                raise _ArmGiveUp("growth of a register that may not exist")
+            z = zeros(grow, st)
+            if z is None:
+                raise _ArmGiveUp(f"register grown by `{u(grow)}`")
+            st.length = st.length + z
+            st.fills.append("0")
+            return run(rest, st)
+        if isinstance(s, ast.Expr) and isinstance(s.value, ast.Constant):
+            return run(rest, st)
+        raise _ArmGiveUp(f"statement `{u(s)[:80]}`")
+    finals = []
+    for exists in (True, False):
+        st0 = St(exists, L if exists else None, [L] if exists else [], {}, set(), [], [], False)      # L >= 0
+        st0.cons.append(n)                                                                             # n >= 0 (\d+)
+        for f in run(list(stmts), st0):
+            finals.append((exists, f))
+    return finals
+
+
 def r4_write_semantics(ctx, m, shot, lp) -> None:
     """stated over the path summaries of one iteration of the replay loop: every local is replaced by its definition"""
     fn_o = shot.methods["to_register_bits"]
@@ -164,45 +328,71 @@ def r4_write_semantics(ctx, m, shot, lp) -> None:
         return [x for x in q.effects if isinstance(x, (ast.Assign, ast.AugAssign)) and u(x.targets[0] if isinstance(x, ast.Assign) else x.target).startswith(f"{acc}[")] + \
                [x for x in q.effects if isinstance(x, ast.Expr) and isinstance(x.value, ast.Call) and isinstance(x.value.func, ast.Attribute) and u(x.value.func.value).startswith(f"{acc}[")
                 and x.value.func.attr in ("extend", "append", "insert")]
-    # name and index from the two groups, in order: every store of the indexed arm addresses acc[group 1] (and position int(group 2))
-    ok = bool(indexed) and all(stores(q) and all(u(x.targets[0] if isinstance(x, ast.Assign) else (x.target if isinstance(x, ast.AugAssign) else x.value.func.value)).startswith(reg) for x in stores(q)) for q in indexed)
-    ctx.check(ok, "C19.R4", "to_register_bits: name and index come from the two groups in order", m.path, lp.lineno,
-              "group 1 is the register name, group 2 its decimal index", lp, found="; ".join(" | ".join(u(x) for x in stores(q)) for q in indexed)[:300])
-    # creation
-    ok_c = bool(indexed)
-    for q in indexed:
-        known = [k for t, k in q.tests if u(t) == f"{name} in {acc}"]
-        cr = [x for x in q.effects if isinstance(x, ast.Assign) and u(x.targets[0]) == reg]
-        if not known:
-            ok_c = False
-        elif known[0]:
-            ok_c = ok_c and not cr
+    # ---- the indexed arm, followed abstractly (hv/lin.py): whatever the spelling, after it the register <group 1> exists, has length
+    #      max(length before, n + 1) with n = int(<group 2>), was only ever filled with '0', and position n holds the casted bit
+    from ..lin import Lin, implies
+    cfull = ctx.cfn(f"{MOD}.QsysShot.to_register_bits")
+    clp = [x for x in cfull.body if isinstance(x, ast.For)]
+    arm, mv, why = None, None, ""
+    if len(clp) == 1:
+        bound = {u(x.targets[0]): u(x.value) for x in clp[0].body if isinstance(x, ast.Assign) and isinstance(x.targets[0], ast.Name)}
+        for x in clp[0].body:
+            if isinstance(x, ast.If):
+                t = x.test
+                e_ = tmatch(t, T("L_m is not None"))
+                if e_ is not None and bound.get(e_["L_m"]) == M.replace(tagv, u(clp[0].target.elts[0])):
+                    arm, mv = x.body, e_["L_m"]
+    finals = []
+    if arm is None:
+        why = "the arm taken when the tag matches REG_INDEX_PATTERN was not found in the canonical body"
+    else:
+        try:
+            finals = indexed_arm_outcomes(arm, acc, mv, u(clp[0].target.elts[1]))
+        except _ArmGiveUp as ex:
+            why = f"the indexed arm contains something the length analysis cannot follow: {ex}"
+    n_, L_ = Lin.sym("n"), Lin.sym("L")
+    cast = f"_cast_primitive_bit({u(clp[0].target.elts[1]) if clp else datav})"
+    ok_n = ok_c = ok_g = ok_w = bool(finals)
+    seen_e = set()
+    for existed, f in finals:
+        seen_e.add(existed)
+        if f.exists is not True or len(f.writes) != 1:
+            ok_n = ok_w = False
+            why = why or "a path through the indexed arm does not write exactly one position of the register"
+            continue
+        i_, val, len_at, cons = f.writes[0]
+        if i_ != n_:
+            ok_n = False
+            why = why or f"the position written is {i_}, not the integer of group 2"
+        if val != cast or len_at != f.length or any(c != "0" for c in f.fills):
+            ok_w = False
+            why = why or f"the bit written is `{val}` / the register changes after the write"
+        if not existed:
+            if f.length != n_ + 1:
+                ok_c = False
+                why = why or f"a register created by an indexed write gets length {f.length}, not n + 1"
         else:
-            ok_c = ok_c and len(cr) == 1 and u(cr[0].value) in (f"['0'] * ({idx} + 1)", f"['0' for c0 in range({idx} + 1)]", f"({idx} + 1) * ['0']")
+            if implies(f.cons, n_ - L_, nonneg=("n", "L")):
+                good = f.length == n_ + 1
+            elif implies(f.cons, L_ - n_ - 1, nonneg=("n", "L")):
+                good = f.length == L_
+            else:
+                good = False
+            if not good:
+                ok_g = False
+                why = why or f"an existing register of length L ends with length {f.length} on the path {[str(c) + ' >= 0' for c in f.cons]}"
+    if seen_e != {True, False}:
+        ok_c = ok_c and False in seen_e
+        ok_g = ok_g and True in seen_e
+    ctx.check(ok_n, "C19.R4", "to_register_bits: name and index come from the two groups in order", m.path, lp.lineno,
+              "group 1 is the register name, group 2 its decimal index" + (f" [{why}]" if why and not ok_n else ""), lp, found=why)
     ctx.check(ok_c, "C19.R4", "to_register_bits: register created with index+1 zeros", m.path, lp.lineno,
-              "an indexed write to an unknown register creates it with n+1 zero bits", lp)
-    # growth
-    ok_g = bool(indexed)
-    for q in indexed:
-        short = [k for t, k in q.tests if u(t) in (f"{idx} < len({reg})", f"len({reg}) <= {idx}")]
-        short = [(not k) if u(t) == f"{idx} < len({reg})" else k for t, k in q.tests if u(t) in (f"{idx} < len({reg})", f"len({reg}) <= {idx}")]
-        gr = [x for x in q.effects if (isinstance(x, ast.AugAssign) and u(x.target) == reg) or
-              (isinstance(x, ast.Expr) and isinstance(x.value, ast.Call) and u(x.value.func) == f"{reg}.extend")]
-        if not short:
-            ok_g = False
-        elif short[0]:
-            v = u(gr[0].value) if gr and isinstance(gr[0], ast.AugAssign) else (u(gr[0].value.args[0]) if gr else "")
-            ok_g = ok_g and len(gr) == 1 and v in (f"['0'] * ({idx} - len({reg}) + 1)", f"['0'] * ({idx} + 1 - len({reg}))")
-        else:
-            ok_g = ok_g and not gr
+              "an indexed write to an unknown register creates it with n+1 zero bits" + (f" [{why}]" if why and not ok_c else ""), lp)
     ctx.check(ok_g, "C19.R4", "to_register_bits: register grown with zeros to index+1", m.path, lp.lineno,
-              "a write beyond the current length grows the register in place with '0' up to n+1 bits", lp)
-    # the write
-    ok_w = bool(indexed)
-    for q in indexed:
-        wr = [x for x in q.effects if isinstance(x, ast.Assign) and u(x.targets[0]) == f"{reg}[{idx}]"]
-        ok_w = ok_w and len(wr) == 1 and u(wr[0].value) == f"_cast_primitive_bit({datav})" and q.effects.index(wr[0]) == max(q.effects.index(x) for x in stores(q))
-    ctx.check(ok_w, "C19.R4", "to_register_bits: one bit written at position n", m.path, lp.lineno, "the indexed arm writes exactly position n with the casted bit", lp)
+              "a write beyond the current length grows the register in place with '0' up to n+1 bits; a write inside it leaves the length alone"
+              + (f" [{why}]" if why and not ok_g else ""), lp)
+    ctx.check(ok_w, "C19.R4", "to_register_bits: one bit written at position n", m.path, lp.lineno,
+              "the indexed arm writes exactly position n with the casted bit, after any growth" + (f" [{why}]" if why and not ok_w else ""), lp)
     ok_x = all(not any(isinstance(x, ast.Assign) and u(x.targets[0]) == f"{acc}[{tagv}]" for x in q.effects) for q in indexed) and bool(whole)
     ctx.check(ok_x, "C19.R4", "to_register_bits: arms are exclusive", m.path, lp.lineno,
               "an indexed tag must not also be treated as a whole-register write", lp)
@@ -455,7 +645,9 @@ MUTANTS = [
     dict(name="regex-uppercase", file=Q, expect="C19.R3", old="REG_INDEX_PATTERN = re.compile(r\"^([a-z][\\w_]*)\\[(\\d+)\\]$\")", new="REG_INDEX_PATTERN = re.compile(r\"^([a-zA-Z][\\w_]*)\\[(\\d+)\\]$\")"),
     dict(name="regex-unanchored", file=Q, expect="C19.R3", old="REG_INDEX_PATTERN = re.compile(r\"^([a-z][\\w_]*)\\[(\\d+)\\]$\")", new="REG_INDEX_PATTERN = re.compile(r\"([a-z][\\w_]*)\\[(\\d+)\\]$\")"),
     dict(name="regex-single-digit", file=Q, expect="C19.R3", old="REG_INDEX_PATTERN = re.compile(r\"^([a-z][\\w_]*)\\[(\\d+)\\]$\")", new="REG_INDEX_PATTERN = re.compile(r\"^([a-z][\\w_]*)\\[(\\d)\\]$\")"),
-    dict(name="create-too-short", file=Q, expect="C19.R4", old="                    reg_bits[reg_name] = [\"0\"] * (reg_index + 1)", new="                    reg_bits[reg_name] = [\"0\"] * reg_index"),
+    # (behaviour-preserving: the growth step that follows pads the shorter new register to n + 1 -- the length analysis sees that; the earlier
+    #  syntactic rule flagged it)
+    dict(name="create-two-short", file=Q, expect="C19.R4", old="                    reg_bits[reg_name] = [\"0\"] * (reg_index + 1)", new="                    reg_bits[reg_name] = [\"0\"] * (reg_index + 2)"),
     dict(name="grow-off-by-one", file=Q, expect="C19.R4", old="                    bitlst += [\"0\"] * (reg_index - len(bitlst) + 1)", new="                    bitlst += [\"0\"] * (reg_index - len(bitlst))"),
     dict(name="grow-with-ones", file=Q, expect="C19.R4", old="                    bitlst += [\"0\"] * (reg_index - len(bitlst) + 1)", new="                    bitlst += [\"1\"] * (reg_index - len(bitlst) + 1)"),
     dict(name="indexed-write-uncast", file=Q, expect="C19.R4", old="                bitlst[reg_index] = _cast_primitive_bit(data)", new="                bitlst[reg_index] = str(data)  # type: ignore[assignment]"),
@@ -474,6 +666,7 @@ MUTANTS = [
     dict(name="flatten-skips-nested", file=Q, expect="C19.R6", old="            yield from _flatten(i)", new="            yield from i"),
 ]
 TWINS = [
+    dict(name="twin-create-one-short", file=Q, old="                    reg_bits[reg_name] = [\"0\"] * (reg_index + 1)", new="                    reg_bits[reg_name] = [\"0\"] * reg_index"),
     dict(name="twin-fullmatch", file=Q, old="            match = re.match(REG_INDEX_PATTERN, tag)", new="            match = REG_INDEX_PATTERN.match(tag)"),
     dict(name="twin-conditional-bit", file=Q, old="        return str(int(data))  # type: ignore[return-value]", new="        return \"1\" if data else \"0\""),
     dict(name="twin-entries-local", file=Q, old="        for tag, data in self.entries:\n            match = re.match", new="        entries = self.entries\n        for tag, data in entries:\n            match = re.match"),
